@@ -24,4 +24,18 @@ PROPS = {
         "trusted_base": ["hand-written model GGV.Model.IgnoreSet of src/util/ignoreset.go, tied by the iset correspondence suite",
                          "code hierarchy over the regenerated table GGV.Gen.codesByCategory (T1)"],
     },
+    "C19": {
+        "theorems": T("C19", ["truncateG_total", "caret_under_char", "displayCol_bounds", "truncate_len_le", "truncate_len_exact",
+                               "truncate_short", "caret_prefix_len", "caret_prefix_tabs", "window_sound", "window_complete",
+                               "window_has_reported_line", "no_excerpt", "render_header", "maxLineLength_ge_4", "context_is_2_1",
+                               "caret_under_char_repo"]),
+        "suites": ["excerpt"],
+        "assumptions": [
+            "columns are byte columns (token.Position.Column counts bytes); visual alignment after multi-byte characters is not claimed",
+            "bufio.Scanner line splitting is modelled (LF split, one trailing CR dropped, scan stops at a line >= 65536 bytes) and tied by correspondence incl. the exact boundary",
+            "Go int modelled as unbounded Int",
+        ],
+        "trusted_base": ["hand-written model GGV.Model.Excerpt of src/reporting/reporter.go (truncateString, calculateDisplayColumn, readSourceLines, formatPrettyError), tied byte-for-byte by the excerpt suite",
+                         "constants MaxLineLength and the (2,1) context regenerated from /repo (T5)"],
+    },
 }
